@@ -157,7 +157,7 @@ func (dest *Destination) Update(opts map[string]string) error {
 		}
 	}
 	if addr != "" {
-		dest.updateConn(addr)
+		dest.updateConn(addr, true)
 	}
 	if updateMatcher {
 		match, err := matcher.New(prefix, notPrefix, sub, notSub, regex, notRegex)
@@ -236,11 +236,17 @@ func (dest *Destination) Shutdown() error {
 	return nil
 }
 
-func (dest *Destination) updateConn(addr string) {
+// updateConn (re)connects to addr. setInstance tells whether addr is a newly configured address
+// (server, server:port or server:port:instance) whose instance part replaces dest.Instance,
+// as opposed to a reconnect to dest.Addr, which carries no instance part.
+func (dest *Destination) updateConn(addr string, setInstance bool) {
 	log.Debugf("dest %v (re)connecting to %v", dest.Key, addr)
 	dest.inConnUpdate <- true
 	defer func() { dest.inConnUpdate <- false }()
 	addr, instance := addrInstanceSplit(addr)
+	if !setInstance {
+		instance = dest.Instance
+	}
 	conn, err := NewConn(dest.Key, addr, dest.periodFlush, dest.Pickle, dest.connBufSize, dest.ioBufSize)
 	if err != nil {
 		log.Debugf("dest %v: %v", dest.Key, err.Error())
@@ -253,6 +259,10 @@ func (dest *Destination) updateConn(addr string) {
 		dest.Instance = instance
 		dest.Key = util.Key(dest.RouteName, addr)
 		dest.setMetrics()
+	} else if instance != dest.Instance {
+		// same server:port, other carbon instance behind it: consistent hashing depends on it
+		log.Infof("dest %v update instance to %q", dest.Key, instance)
+		dest.Instance = instance
 	}
 	dest.connUpdates <- conn
 	return
@@ -312,7 +322,7 @@ func (dest *Destination) relay() {
 	}
 
 	numConnUpdates := 0
-	go dest.updateConn(dest.Addr)
+	go dest.updateConn(dest.Addr, false)
 	var signalConnOnline chan struct{}
 
 	// this loop/select should never block, we can't hang dest.In or the route & table locks up
@@ -362,7 +372,7 @@ func (dest *Destination) relay() {
 		case <-ticker.C: // periodically try to bring connection (back) up, if we have to, and no other connect is happening
 			verifEvent("relay.tick", dest.Key, conn, numConnUpdates)
 			if conn == nil && numConnUpdates == 0 {
-				go dest.updateConn(dest.Addr)
+				go dest.updateConn(dest.Addr, false)
 			}
 			dest.SlowLastLoop = dest.SlowNow
 			dest.SlowNow = false
